@@ -83,8 +83,9 @@ CLAIMS = {
                 text="PARTIAL proof. Props/C08.v proves on the regenerated tables that every bulk-read state's character set contains "
                      "every character the slow path treats specially and that its default arm is the per-character form of the run "
                      "arm (with a proved soundness lemma for the arm-chain check), and that the SIMD helper's hard-wired sets agree "
-                     "with the scalar path. For exact_errors and the html tokenizer whole runs are proved too (TokIR/BulkSim.v, "
-                     "C08_exact_errors_changes_only_errors_and_text_cuts): the chunked-queue interpreter with exact_errors = false "
+                     "with the scalar path. For exact_errors whole runs are proved too, for BOTH tokenizers (TokIR/BulkSim.v, one "
+                     "theory instantiated on the regenerated html and xml tables: C08_exact_errors_changes_only_errors_and_text_cuts, "
+                     "C08_xml_exact_errors_changes_only_errors_and_text_cuts): the chunked-queue interpreter with exact_errors = false "
                      "(bulk reads, SIMD scan, no current_char update, no bad-character errors) and the same interpreter with "
                      "exact_errors = true, from the same machine, for every list of chunks, sink script, injected text: if the "
                      "default-mode run ends without fuel exhaustion, the exact-mode run with any large enough fuel reports the same "
@@ -94,10 +95,12 @@ CLAIMS = {
                      "under two decidable table conditions decided on the regenerated table (C08_bulk_table_conditions: sets contain "
                      "CR, LF, NUL and every character the per-character arm singles out, the default per-character arm is the run "
                      "arm for one character up to Error commands, also w.r.t. the SIMD stop set, which lies inside the first-character "
-                     "guard and counts only LF; arms reconsume only after reading; EOF arms do not read). Still tested only: the "
-                     "same for xml5ever, the other options (discard_bom, drop_doctype, profile), the tree-builder level, and Rust "
+                     "guard and counts only LF - html only; for xml NUL is in every set and LF need not stop a run because lines are not "
+                     "counted by get_preprocessed_char; arms reconsume only after reading; EOF arms do not read; "
+                     "C08_xml_bulk_table_conditions: no condition fails on the xml table). Still tested only: "
+                     "the other options (discard_bom, drop_doctype, profile), the tree-builder level, and Rust "
                      "vs interpreter: metamorphic option oracle on the implementation (tokens and trees).",
-                note=TOK_NOTE, tech="reflective Coq checks on char sets + Coq stuttering simulation fast path vs slow path (whole driver, html) + option metamorphic oracle"),
+                note=TOK_NOTE, tech="reflective Coq checks on char sets + Coq stuttering simulation fast path vs slow path (whole driver, html and xml) + option metamorphic oracle"),
     "C09": dict(cat="proof", ref="DESIGN.md section 5 C09",
                 text="PARTIAL proof. Props/C09.v proves the law itself for ALL inputs on the interpreter over the regenerated html "
                      "table (TokIR/LineInv.v, generic in the table; Inst/InstLine.v): reference semantics (html flavour, exact_errors = "
@@ -130,9 +133,21 @@ CLAIMS = {
                      "(feed loops, script injection, end()) is chunk-independent (TokIR/ChunkExec.v). The tree-builder half: over "
                      "the token-level model of the XML tree builder (XmlNs/XTreeModel.v, tied to the code by C16's correspondence) the "
                      "document built, and every state component except the parse-error count, do not depend on how character data is "
-                     "cut into character tokens (XmlNs/XSplit.v, C15_tree_builder_independent_of_character_token_splitting). Still "
-                     "_partial: the bulk-read / non-exact interpreter vs the reference semantics, and the Rust code "
-                     "vs the interpreter, are tied differentially. Chunking / exact_errors / discard_bom independence of the real "
+                     "cut into character tokens (XmlNs/XSplit.v, C15_tree_builder_independent_of_character_token_splitting). "
+                     "Also proved (TokIR/BulkSim.v, one theory for both flavours; its two table conditions are decided on the "
+                     "regenerated xml table in Inst/InstBulk.v and none fails): for exact_errors = false - the default mode - the "
+                     "chunked-queue interpreter with bulk reads (Data and the three attribute-value states take a run up to the end "
+                     "of the first buffer, stale current_char, no bad-character errors) is in a stuttering simulation with the "
+                     "reference interpreter, whole driver included (feed, BOM, Script pauses with injected text, end() with its EOF "
+                     "loop going on after a Script answer): if the default-mode run ends without fuel exhaustion, the reference run "
+                     "with any large enough fuel reports the same results, unread input, consumed count, configuration up to "
+                     "current_char, and the same tokens up to dropping parse errors and merging adjacent character tokens "
+                     "(C15_default_mode_against_reference, C15_default_mode_is_reference_up_to_obs); composed with the chunk "
+                     "theorem, the observable token stream and the end() result of the default-mode interpreter do not depend on "
+                     "the chunking (C15_default_mode_chunking_independent_obs, from every machine satisfying the invariant J). "
+                     "The hypothesis 'no fuel exhaustion' stays. Still "
+                     "_partial: the Rust code "
+                     "vs the interpreter is tied differentially. Chunking / exact_errors / discard_bom independence of the real "
                      "parser and the normalisation law tree(x) = tree(normalise(x)) are checked metamorphically on the "
                      "implementation (tokens and trees); reference vs chunked interpreter vs Rust code tied differentially.",
                 note=TOK_NOTE, tech="generic Coq suspend/resume proof + reflective checks on regenerated xml table + chunking/option/normalisation oracles"),
